@@ -16,6 +16,8 @@ pub mod stdspec {
     pub assume_specification<T> [<[T]>::swap] (s: &mut [T], a: usize, b: usize)
         requires a < old(s)@.len(), b < old(s)@.len()
         ensures final(s)@ == old(s)@.update(a as int, old(s)@[b as int]).update(b as int, old(s)@[a as int]);
+    pub assume_specification<T> [<[T]>::reverse] (s: &mut [T])
+        ensures final(s)@ == old(s)@.reverse();
     #[verifier::external_body]
     pub broadcast proof fn ax_f64_cloned(a: f64, b: f64) requires #[trigger] cloned::<f64>(a, b) ensures a == b {}
     // `(k as f64) as i64 == k` for |k| <= 2^53 (exactly representable integers)
